@@ -677,6 +677,10 @@ def run(ctx):
         fil.write("file")
     with open(os.path.join(root, "d", "g"), "w") as fil:
         fil.write("g")
+    # an entry that shares its name with the debug page: the document root
+    # comes first in the documented precedence
+    with open(os.path.join(root, "debug-info"), "w") as fil:
+        fil.write("not the debug page")
     try:
         return body(ctx, rng, quick, root)
     finally:
